@@ -42,7 +42,7 @@ def odml_tuple_import(t_count, new_value):
                 for tuple_val in n_val:
                     n_val_str += str(tuple_val) + "; "
                 return_value += [n_val_str[:-2] + ")"]
-        else:
+        elif isinstance(n_val, str):
             cln = n_val.strip()
             br_check = cln.count("(") == cln.count(")")
             sep_check = t_count == 1 or cln.count("(") == (cln.count(";") / (t_count - 1))
@@ -179,6 +179,8 @@ class BaseProperty(base.BaseObject):
                              "array of length %i" % (int(key), self.__len__()))
         try:
             val = dtypes.get(item, self.dtype)
+            if val is None:
+                raise ValueError("empty value")
             self._values[int(key)] = val
         except Exception:
             raise ValueError("odml.Property.__setitem__:  passed value cannot be "
@@ -346,7 +348,9 @@ class BaseProperty(base.BaseObject):
         """
         for val in values:
             try:
-                dtypes.get(val, self.dtype)
+                # Empty tuple entries are converted to None which cannot be stored.
+                if dtypes.get(val, self.dtype) is None:
+                    return False
             except Exception:
                 return False
         return True
